@@ -37,7 +37,8 @@ Broken == 9
 Id(w, i) == 100 * w + 10 * i
 
 VARIABLES
-    script,      \* frozen: per worker [tests: Seq("ok"|"er"|"raw"), raises: no | exc | base]
+    script,      \* frozen: per worker [tests: Seq("ok"|"er"|"raw"), raises: no | exc | base, route: a code or "none"];
+                 \* route codes need NOT be distinct: make_tests may give several workers the same code (or None)
     makeFault,   \* frozen: NoFault or k: make_tests raises after yielding k sub-suites
     intrAt,      \* frozen: NoFault or j: the j-th (0-based) queue.get() raises KeyboardInterrupt
     cfault,      \* frozen: NoFault or n: the caller's result raises at its n-th (0-based) status() call
@@ -45,9 +46,9 @@ VARIABLES
     cause, propagated,
     wpc,         \* per worker: new ready put exit done
     wk,          \* per worker: index of the next message to put
-    queue,       \* sequence of messages [kind, w, id, st, sub]
-    threads,     \* the dict, as a sequence of workers
-    clog,        \* the caller's stream result: sequence of [w, id, st, route, ts]
+    queue,       \* sequence of messages [kind, w, id, st, sub, code]
+    threads,     \* the dict (keyed by the worker's own StreamToQueue object - never by route code), as a sequence of workers
+    clog,        \* the caller's stream result: sequence of [w, id, st, code, sub, ts]; w = the worker the test id belongs to
     emitted,     \* per worker: the status messages it has put so far (history)
     runBy, told, abortAlive, ngets, nstatus, hist
 
@@ -58,26 +59,29 @@ Workers == DOMAIN script
 N == Len(script)
 Alive(p) == {w \in DOMAIN p : p[w] \notin {"new", "done"}}
 PC(p, w) == [pc |-> p, w |-> w]
-Msg(k, w, id, st, sub) == [kind |-> k, w |-> w, id |-> id, st |-> st, sub |-> sub]
-NoMsg == Msg(None, 0, 0, None, FALSE)
+Msg(k, w, id, st, sub, code) == [kind |-> k, w |-> w, id |-> id, st |-> st, sub |-> sub, code |-> code]
+NoMsg == Msg(None, 0, 0, None, FALSE, None)
+\* a status event leaves StreamToQueue with that worker's route code (prefixing the event's own, `sub`)
+StatusMsg(w, id, st, sub) == Msg("status", w, id, st, sub, script[w].route)
+Ctl(k, w) == Msg(k, w, 0, None, FALSE, None)
 
 \* the status events one scripted test produces through ExtendedToStreamDecorator (PlaceHolder.run) or directly
 EventsOf(w, i, kind) ==
-    CASE kind = "ok"  -> << Msg("status", w, Id(w, i), "inprogress", FALSE), Msg("status", w, Id(w, i), "success", FALSE) >>
-      [] kind = "er"  -> << Msg("status", w, Id(w, i), "inprogress", FALSE), Msg("status", w, Id(w, i), "fail", FALSE) >>
-      [] kind = "raw" -> << Msg("status", w, Id(w, i), "success", TRUE) >>
-BrokenEvents(w) == << Msg("status", w, Id(w, Broken), "inprogress", FALSE) >>
-                   \o [j \in 1..NFile |-> Msg("status", w, Id(w, Broken), "file", FALSE)]
-                   \o << Msg("status", w, Id(w, Broken), "fail", FALSE) >>
+    CASE kind = "ok"  -> << StatusMsg(w, Id(w, i), "inprogress", FALSE), StatusMsg(w, Id(w, i), "success", FALSE) >>
+      [] kind = "er"  -> << StatusMsg(w, Id(w, i), "inprogress", FALSE), StatusMsg(w, Id(w, i), "fail", FALSE) >>
+      [] kind = "raw" -> << StatusMsg(w, Id(w, i), "success", TRUE) >>
+BrokenEvents(w) == << StatusMsg(w, Id(w, Broken), "inprogress", FALSE) >>
+                   \o [j \in 1..NFile |-> StatusMsg(w, Id(w, Broken), "file", FALSE)]
+                   \o << StatusMsg(w, Id(w, Broken), "fail", FALSE) >>
 RECURSIVE TestEvents(_, _)
 TestEvents(w, i) == IF i > Len(script[w].tests) THEN <<>>
                     ELSE EventsOf(w, i, script[w].tests[i]) \o TestEvents(w, i + 1)
-Msgs(w) == << Msg("startTestRun", w, 0, None, FALSE) >> \o TestEvents(w, 1)
+Msgs(w) == << Ctl("startTestRun", w) >> \o TestEvents(w, 1)
            \o (IF script[w].raises = "exc" THEN BrokenEvents(w) ELSE <<>>)
-           \o << Msg("stopTestRun", w, 0, None, FALSE) >>
+           \o << Ctl("stopTestRun", w) >>
 
-CEntry(m) == [w |-> m.w, id |-> m.id, st |-> m.st, route |-> IF m.sub THEN "own/sub" ELSE "own", ts |-> TRUE]
-NoCEntry == [w |-> 0, id |-> 0, st |-> None, route |-> None, ts |-> FALSE]
+CEntry(m) == [w |-> m.w, id |-> m.id, st |-> m.st, code |-> m.code, sub |-> m.sub, ts |-> TRUE]
+NoCEntry == [w |-> 0, id |-> 0, st |-> None, code |-> None, sub |-> FALSE, ts |-> FALSE]
 
 Log(t, act, m, e) ==
     hist' = IF Record
@@ -218,14 +222,16 @@ EventsOnceInOrder ==
     /\ \A w \in Workers : /\ IsPrefix(Seen(w), Put(w))
                           /\ mpc.pc = "returned" => Seen(w) = Put(w)
 
-\* forwarded events carry that worker's route code (prefixing the event's own) and a timestamp
+\* forwarded events carry the route code of the worker they come from (prefixing the event's own) and a
+\* timestamp; the codes of different workers may coincide - events are attributed by test id, not by code
 StreamFields ==
     \A j \in DOMAIN clog :
         LET e == clog[j]
             src == {k \in DOMAIN emitted[e.w] : emitted[e.w][k].id = e.id}
         IN /\ e.ts
            /\ src # {}
-           /\ e.route = (IF emitted[e.w][CHOOSE k \in src : TRUE].sub THEN "own/sub" ELSE "own")
+           /\ e.code = script[e.w].route
+           /\ e.sub = emitted[e.w][CHOOSE k \in src : TRUE].sub
 
 \* a sub-suite whose run() raises is reported as a failed "broken-runner-'route'" test
 BrokenReported ==
